@@ -98,6 +98,37 @@ impl FaultPlan {
     pub fn benign_only(&self) -> bool {
         self.capacity.is_none() && self.at.iter().all(|(_, f)| f.is_benign())
     }
+    /// Simpler fault plans: drop chunks of entries; drop one Interrupted entry and move the
+    /// later entries one call earlier (an interrupted call is retried, so removing it
+    /// shifts the rest of the trace); turn short transfers into longer ones.
+    pub fn shrink(&self, max_len: usize) -> Vec<FaultPlan> {
+        let mut out = Vec::new();
+        for at in crate::fw::shrink_list(&self.at) {
+            out.push(FaultPlan { at, capacity: self.capacity });
+        }
+        for (i, (_, f)) in self.at.iter().enumerate() {
+            if matches!(f, Fault::Interrupted) {
+                let mut at = self.at.clone();
+                at.remove(i);
+                for e in at.iter_mut().skip(i) {
+                    e.0 = e.0.saturating_sub(1);
+                }
+                out.push(FaultPlan { at, capacity: self.capacity });
+            }
+            if let Fault::Short(k) = f {
+                if *k + 1 < max_len {
+                    let mut at = self.at.clone();
+                    at[i].1 = Fault::Short(k + 1);
+                    out.push(FaultPlan { at, capacity: self.capacity });
+                }
+            }
+        }
+        if self.capacity.is_some() {
+            out.push(FaultPlan { at: self.at.clone(), capacity: None });
+        }
+        out
+    }
+
     fn map(&self) -> BTreeMap<usize, Fault> {
         self.at.iter().cloned().collect()
     }
